@@ -59,8 +59,15 @@ def main(argv):
     sub = "seeded"
     if "--dir" in argv:
         sub = argv[argv.index("--dir") + 1]
-    pref = [a for a in argv if not a.startswith("--") and a != sub]
     base = os.path.join(HERE, sub)
+    only = None
+    if "--base" in argv:          # e.g. --base /tmp/mut/out2/C13 --prop C13
+        base = argv[argv.index("--base") + 1]
+        sub = base
+    if "--prop" in argv:
+        only = argv[argv.index("--prop") + 1]
+    pref = [a for a in argv if not a.startswith("--") and
+            a not in (sub, only)]
     seeds = sorted(d for d in os.listdir(base)
                    if os.path.isdir(os.path.join(base, d)) and
                    (not pref or any(d.startswith(p) for p in pref)))
@@ -73,7 +80,7 @@ def main(argv):
                 meta = json.load(open(os.path.join(d, "meta.json")))
             except Exception:
                 pass
-            own = meta.get("property") or s.split("-")[0]
+            own = only or meta.get("property") or s.split("-")[0]
             props = ["C%02d" % i for i in range(1, 21)] if allp else [own]
             jobs.append(ex.submit(run_one, d, props))
         for j in jobs:
